@@ -174,9 +174,43 @@ def prefix_idiom(ctx: Ctx, f, lst: str, nump: str, frame=None, env=None, _depth:
         g = ctx.an.cfg(f)
         tests = [n for n in ctx.nodes(f, lambda n: n.op == "test" and n.loops and n.loops[-1] is lp and isinstance(n.ast, ast.Compare))]
         good = None
+
+        def bound_is_num(x: ast.AST, _d: int = 0):
+            """True: the bound is the num parameter for every int; a string: why it is not; None: something else"""
+            x = strip_cast(x)
+            if isinstance(x, ast.Name) and x.id == nump and frame_has_param(x.id):
+                return True
+            if _d > 4:
+                return None
+            if isinstance(x, ast.Name):
+                bs = ctx.vals.bindings(frame, x.id) or []
+                if len(bs) != 1:
+                    return None
+                return bound_is_num(bs[0], _d + 1)
+            if isinstance(x, ast.BoolOp) and isinstance(x.op, ast.Or) and bound_is_num(x.values[0], _d + 1) is True:
+                return (f"the bound is `{ast.unparse(x)}`: an explicit {nump}=0 is falsy and is replaced by the fallback, so a request to stop "
+                        "no task stops tasks")
+            if isinstance(x, ast.IfExp):
+                t_ = x.test
+                if isinstance(t_, ast.Compare) and len(t_.ops) == 1 and isinstance(t_.comparators[0], ast.Constant) and t_.comparators[0].value is None \
+                        and isinstance(t_.left, ast.Name) and t_.left.id == nump:
+                    chosen = x.body if isinstance(t_.ops[0], ast.IsNot) else (x.orelse if isinstance(t_.ops[0], ast.Is) else None)
+                    return bound_is_num(chosen, _d + 1) if chosen is not None else None
+                if isinstance(t_, ast.Name) and t_.id == nump and bound_is_num(x.body, _d + 1) is True:
+                    return f"the bound is `{ast.unparse(x)}`: an explicit {nump}=0 is falsy and takes the fallback"
+            return None
+
+        def frame_has_param(name: str) -> bool:
+            return name in frame.param_names()
+
         for t in tests:
             c = t.ast
-            if len(c.ops) == 1 and is_counter(c.left) and isinstance(c.comparators[0], ast.Name) and c.comparators[0].id == nump:
+            if len(c.ops) == 1 and is_counter(c.left):
+                b = bound_is_num(c.comparators[0])
+                if isinstance(b, str):
+                    return False, b
+                if b is not True:
+                    continue
                 if isinstance(c.ops[0], ast.GtE):
                     leaves = [s for s, lab in t.succ if lab[0] == "T"]
                     # the true branch must leave the loop without appending
